@@ -71,6 +71,17 @@ def run_unit(task):
             v = Verifier(reg, want_smt2=opts.get('smt2', False), timeout_ms=opts.get('timeout_ms', 10000))
             results, stats = v.verify(c)
             stats = {k: (sorted(x) if isinstance(x, set) else x) for k, x in stats.items()}
+            keep = catalog.PROPS[opts['prop']].case_filter(name)
+            if keep is not None:
+                # shared contract: only the clauses this property states are reported under it
+                def mine(r):
+                    tail = r.name.rsplit('#', 1)[-1]
+                    if r.kind in ('engine', 'exhaustive', 'callsite'):
+                        return True
+                    if r.kind == 'cover':
+                        return tail.split(':', 1)[-1] in keep
+                    return tail in keep or tail == 'modifies-nothing'
+                results = [r for r in results if mine(r)]
         else:
             results, stats = catalog.run_unit(kind, name, reg, opts)
         payload = []
@@ -155,7 +166,7 @@ def _main(a, seed, t_start):
     thorough = a.tier == 'thorough'
     smt2_dir = tempfile.mkdtemp(prefix='pyvc-%s-' % prop) if thorough else None
     opts = {'smt2': thorough, 'smt2_dir': smt2_dir, 'timeout_ms': 60000 if thorough else 10000,
-            'tier': a.tier, 'seed': seed}
+            'tier': a.tier, 'seed': seed, 'prop': prop}
     tasks = [(k, n, opts) for (k, n) in spec.units()]
     if a.only:
         tasks = [t for t in tasks if a.only in t[1]]
